@@ -1,6 +1,7 @@
 package main
 
 import (
+	"encoding/json"
 	"fmt"
 	"strconv"
 	"strings"
@@ -100,7 +101,36 @@ func replayC03Contexts(r *Run, o *Obligation) *ReplayResult {
 	return &ReplayResult{Input: input, Detail: "REPLAY-NOT-REPRODUCED the value written at this sink reads back as data for all adversarial values tried"}
 }
 
+// replayC03JSONScript: the JSON script element on strings that are themselves JSON documents, HTML-hostile ones among
+// them: the body must not end the element or open a comment, and must decode back to the string.
+func replayC03JSONScript(r *Run) *ReplayResult {
+	ins := []string{"plain", "{\"comment\":\"</script><script>alert(document.cookie)</script>\"}", "[\"<!--<script>\"]", " {\"a\":1} ", "[1,2]", "\"quoted\"", "</script>", "<!--", "{\"a\":\"&\"}", "{}", "[]", "null", "{\"a\":\"\u2028\"}"}
+	outs, err := r.evalStringFunc(".", "templ", "\"bytes\"\n\"context\"", `func(s string) string {
+		var b bytes.Buffer
+		if err := JSONScript("x", s).Render(context.Background(), &b); err != nil { panic(err) }
+		return b.String()
+	}`, ins)
+	input := fmt.Sprintf("templ.JSONScript rendered with %d strings that are JSON documents / HTML-hostile", len(ins))
+	if err != nil {
+		return &ReplayResult{Input: input, Detail: "REPLAY-NOT-REPRODUCED (replay harness error: " + firstLines(err.Error(), 3) + ")"}
+	}
+	for i, in := range ins {
+		out := outs[i]
+		body, ok := strings.CutPrefix(out, "<script id=\"x\" type=\"application/json\">")
+		body, ok2 := strings.CutSuffix(body, "</script>")
+		var back string
+		uerr := json.Unmarshal([]byte(body), &back)
+		if !ok || !ok2 || !reMatch(r.e.langs.Get("NO_SCRIPT_END"), body) || uerr != nil || back != in {
+			return &ReplayResult{Confirmed: true, Input: input, Detail: fmt.Sprintf("REPLAY-CONFIRMED templ.JSONScript(\"x\", %s) renders %s: the body ends the element / opens a comment, or does not decode back to the string (decoded %s, err %v)", strconv.Quote(in), strconv.Quote(out), strconv.Quote(back), uerr)}
+		}
+	}
+	return &ReplayResult{Input: input, Detail: "REPLAY-NOT-REPRODUCED every string arrives as a JSON string inside one script element"}
+}
+
 func replayC03(r *Run, o *Obligation) *ReplayResult {
+	if strings.HasPrefix(o.Name, "templ.JSONScriptElement") {
+		return replayC03JSONScript(r)
+	}
 	if strings.HasPrefix(o.Name, "x_script_contexts.") && strings.Contains(o.Name, "#sink.") {
 		return replayC03Contexts(r, o)
 	}
